@@ -10,7 +10,7 @@ CFG = dict(
                "preserved step by step (history_meets_spec); RemoveUninteresting realises the rule stated with an abstract full-match predicate whenever the anchored expressions behave as that predicate (remove_uninteresting_full_match; re-checked per case against Go regexp); simplifyFunc only cuts a suffix; refuted twins for F14, F15 with concrete witnesses. End-to-end layer: the fetched profile = the rule with the FIRST source's expressions on the merged sources (fetch_meets_spec), prune_from is the last stage of applyFocus (prune_from_is_applied_last), tied to driver.PProf / interactive / web by correspondence.",
     level_note="Regexp engine abstract (match table shipped per case); simplifyFunc's fixed bracket expression modelled exactly and "
                "compared on 400+ names per run; the call site in fetch.go (fetchProfiles applies RemoveUninteresting exactly once, whatever the "
-               "mappings' HasFunctions flags) is covered by the `fetch` op on the real fetchProfiles; addLegacyFrameInfo is not modelled.",
+               "mappings' HasFunctions flags) is covered by the `fetch` op on the real fetchProfiles; addLegacyFrameInfo modelled (legacy_frame_info: table chosen by sample type names) and checked on every legacy format (op legacy); the expression tables themselves are taken from the code.",
     rule="inputs = (op, profile, expressions, match table over simplified names): simplifyFunc on a pool + random concatenations of "
          "'(', 'operator()', '(anonymous namespace)' pieces; Prune with drop/keep pairs, PruneFrom, RemoveUninteresting (incl. invalid "
          "expressions, keep without drop) on small stack profiles with inlined locations (1-3 lines), locations shared between "
@@ -25,5 +25,5 @@ CFG = dict(
                  "profiles are valid in the sense of wf_profile (a fragment of Profile.CheckValid)",
                  "an unsymbolized location counts as one frame that matches nothing",
                  "the Go operations keep no state between calls (a history is modelled as the composition of the models; the history op checks it)",
-                 "legacy_profile.addLegacyFrameInfo is not modelled; the fetch.go call site is checked with a single source (no merge)"],
+                 "legacy_profile.addLegacyFrameInfo modelled (legacy_frame_info: table chosen by sample type names) and checked on every legacy format (op legacy); the expression tables themselves are taken from the code; the fetch.go call site is checked with a single source (no merge)"],
 )
